@@ -53,8 +53,25 @@ type Role struct {
 	// HideYoung: objects created within the last HideYoung() commits are invisible to this client
 	// (an informer cache that has not yet received the create event; everything else is served fresh).
 	HideYoung func() int64
+	// HideYoungKind, when set and non-negative for a kind, replaces HideYoung for objects of that kind (informers are per
+	// kind: one may lag while the others are current).
+	HideYoungKind func(kind string) int64
 	// ResetOnRead: typed objects are fully replaced on Get/List (informer-cache clients) instead of decoded onto.
 	ResetOnRead bool
+}
+
+// hideFor: how many requests an object of the kind stays invisible to this client after its creation.
+func (c *Client) hideFor(kind string) int64 {
+	var n int64
+	if c.role.HideYoung != nil {
+		n = c.role.HideYoung()
+	}
+	if c.role.HideYoungKind != nil {
+		if k := c.role.HideYoungKind(kind); k >= 0 {
+			n = k
+		}
+	}
+	return n
 }
 
 type Client struct {
@@ -223,7 +240,7 @@ func (c *Client) Get(ctx context.Context, key client.ObjectKey, obj client.Objec
 	if cur != nil && c.role.Selector != nil && !c.role.Selector.Matches(labelsOf(cur)) {
 		cur = nil
 	}
-	if cur != nil && c.role.HideYoung != nil && s.youngLocked(skey, c.role.HideYoung()) {
+	if cur != nil && s.youngLocked(skey, c.hideFor(skey.Kind)) {
 		cur = nil
 	}
 	if cur == nil {
@@ -265,10 +282,7 @@ func (c *Client) List(ctx context.Context, list client.ObjectList, opts ...clien
 		return err
 	}
 	sel := lo.LabelSelector
-	var hide int64
-	if c.role.HideYoung != nil {
-		hide = c.role.HideYoung()
-	}
+	hide := c.hideFor(k.GVK.Kind)
 	items := s.listLocked(k, lo.Namespace, sel, c.lag(), func(o Obj) bool {
 		if c.role.Selector != nil && !c.role.Selector.Matches(labelsOf(o)) {
 			return false
